@@ -13,10 +13,13 @@ call, frame condition on every write, simulator == specification's register file
 trace is validated once more with the relaxations (O1..O4) whose predicate TLC computed from the
 EEPROM: accepted then = an OBSERVATION (counted, exit stays 0), rejected = a violation.
 Python only builds images, drives the real code and records; all judgements are TLC's."""
+import asyncio
+import itertools
 import json
 import os
 import random
 import struct
+import time
 
 from harness import tlc as T
 from harness import simbus, simloop, escsim
@@ -50,7 +53,7 @@ def concrete_entries(sms, rng=None):
         if e["lenz"]:
             ln = 0x80 if t in (1, 2) else 2 + i
             if rng is not None:
-                ln = rng.choice([16, 64, 128]) if t in (1, 2) else rng.randrange(1, 200)
+                ln = rng.choice([48, 64, 128]) if t in (1, 2) else rng.randrange(1, 200)
         ctl = {1: 0x26, 2: 0x22, 3: 0x64 if i % 2 else 0x24, 4: 0x20 if i % 2 else 0x00}[t]
         out.append((start, ln, ctl, 0, e["en"], t))
     return out
@@ -128,10 +131,11 @@ def apply_prior(st, prior, rng):
         struct.pack_into("<H", st.mem, 0x10, STALE_STATION)
     st.al_state = prior["al"]
     if prior["junk"]:
-        for n in (0, 1, 2, 3, 4, 5, 9):
+        # sync managers 0 and 1 active with somebody's old configuration (an active sync manager
+        # keeps start / length / control when it is overwritten), 2, 3 and 9 configured but off
+        for n in (0, 1, 2, 3, 9):
             struct.pack_into("<HHBBBB", st.mem, 0x800 + 8 * n, 0x1800 + 0x40 * n + rng.randrange(8),
-                             7 + n, (0x26, 0x22, 0x24, 0x20, 0x00, 0x64, 0x24)[n % 7], 0x30,
-                             1 if n != 4 else 0, 0)
+                             7 + n, (0x26, 0x22, 0x24, 0x20)[n % 4], 0x30, 1 if n < 2 else 0, 0)
         for i in range(st.mem[4]):
             struct.pack_into("<IHBBHBBB", st.mem, 0x600 + 16 * i, 0x10000 * (i + 1), 4 + i, 0, 7,
                              0x1100 + i, 0, 1 + i % 2, 1)
@@ -182,7 +186,7 @@ def drive(script, rng=None, budget=60000):
     ev = []
     trace = dict(ee=dict(has41=script["has41"], d=list(category41(entries)) if script["has41"] else [],
                          outbits=script["outbits"], inbits=script["inbits"], other=OTHER_STATION),
-                 relax=[], nf=script["nf"], init=dict(nz=st.nonzero(), al=st.al_state), ev=ev)
+                 relax=[], nf=script["nf"], init=dict(regs=st.regs(), al=st.al_state), ev=ev)
     base_other = other.baseline()
     other_al = other.al_state
 
@@ -193,7 +197,14 @@ def drive(script, rng=None, budget=60000):
 
     async def main():
         ec = EtherCat('x')
-        simbus.attach(ec, bus)
+        _, sender = simbus.attach(ec, bus)
+        try:
+            await calls(ec)
+        finally:
+            sender.cancel()
+            await asyncio.gather(sender, return_exceptions=True)
+
+    async def calls(ec):
         t = Terminal(ec)
         for c in script["calls"]:
             op = c["op"]
@@ -241,7 +252,7 @@ def drive(script, rng=None, budget=60000):
                 if other.mem != base_other else []
             if other.al_state != other_al:
                 changed.append(0x10120)
-            r = dict(k="ret", ok=ok, view=snap_view(t), nz=st.nonzero(), al=st.al_state,
+            r = dict(k="ret", ok=ok, view=snap_view(t), regs=st.regs(), al=st.al_state,
                      other=changed[:20])
             if exc:
                 r["exc"] = exc
@@ -253,7 +264,7 @@ def drive(script, rng=None, budget=60000):
         simloop.run(main, budget=budget)
     except simloop.StallError as e:
         flush()
-        ev.append(dict(k="ret", ok=False, view=snap_view(object()), nz=st.nonzero(), al=st.al_state,
+        ev.append(dict(k="ret", ok=False, view=snap_view(object()), regs=st.regs(), al=st.al_state,
                        other=[], exc="stall: " + str(e)))
     return trace
 
@@ -261,15 +272,16 @@ def drive(script, rng=None, budget=60000):
 # ---------------------------------------------------------------------------------------------
 # TLC
 
-def enumerate_scripts(ctx, wd, maxsm, maxodd, odd, maxcalls, ncanon):
+def enumerate_scripts(ctx, wd, maxsm, maxodd, odd, maxcalls, ncanon, priors, part="both"):
     """-> (scripts of part "eeprom", scripts of part "calls"), each sorted (seed independent)"""
     T.write_cfg(wd, "scripts.cfg", f"""SPECIFICATION SSpec
-CONSTANTS Part = "both"
+CONSTANTS Part = "{part}"
           MaxSm = {maxsm}
           MaxOdd = {maxodd}
           Odd = {{{", ".join(map(str, odd))}}}
           MaxCalls = {maxcalls}
           NCanon = {ncanon}
+          PriorSel = {{{", ".join(json.dumps(p) for p in priors)}}}
 INVARIANT Emit
 CHECK_DEADLOCK FALSE
 """)
@@ -279,21 +291,39 @@ CHECK_DEADLOCK FALSE
     parts = {"eeprom": {}, "calls": {}}
     for part, s in T.printed_records(res, "SCRIPT"):
         parts[part][json.dumps(s, sort_keys=True)] = s
-    if not parts["eeprom"] or not parts["calls"]:
+    if any(not parts[p] for p in parts if part in (p, "both")):
         raise T.MachineryError("EscInitScripts printed no script")
     return tuple([parts[p][k] for k in sorted(parts[p])] for p in ("eeprom", "calls"))
 
 
-def validate(ctx, wd, traces, chunk=1500, timeout=900):
-    """-> [(matched, length, applicable observations)] per trace, by EscInitTrace"""
-    out = []
-    for start in range(0, len(traces), chunk):
-        part = traces[start:start + chunk]
-        path = os.path.join(wd, f"traces_{start}.json")
+def validate(ctx, wd, traces, jobs=4, timeout=1500):
+    """-> [(matched, length, applicable observations)] per trace, by EscInitTrace.  The traces are
+    split over `jobs` TLC processes (one worker each: the progress registers are per worker)."""
+    from concurrent.futures import ThreadPoolExecutor
+    if not traces:
+        return []
+    size = max(50, -(-len(traces) // jobs))
+    parts = [(start, traces[start:start + size]) for start in range(0, len(traces), size)]
+    stamp = time.time_ns()
+
+    def one(arg):
+        start, part = arg
+        path = os.path.join(wd, f"traces_{stamp}_{start}.json")
         with open(path, "w") as f:
             json.dump(part, f)
+        # operator arguments are re-evaluated instead of cached: TLC validates a cached argument by
+        # comparing whole states, which costs far more than these arguments do
         res = T.run(wd, "EscInitTrace", "EscInitTrace.cfg", workers=1, timeout=timeout, deadlock=False,
-                    env={"TRACE_FILE": path})
+                    env={"TRACE_FILE": path,
+                         "JAVA_TOOL_OPTIONS": "-Dtlc2.value.impl.LazyValue.off=true"
+                                              + (" -XX:TieredStopAtLevel=1" if len(part) < 1500 else "")})
+        os.remove(path)
+        return res
+
+    with ThreadPoolExecutor(max_workers=jobs) as ex:
+        ress = list(ex.map(one, parts))
+    out = []
+    for (start, part), res in zip(parts, ress):
         if res.error or not res.ok:
             raise T.MachineryError(f"EscInitTrace failed:\n{res.error}\n{res.out[-3000:]}")
         ctx.tlc_stats(res)
@@ -304,14 +334,13 @@ def validate(ctx, wd, traces, chunk=1500, timeout=900):
         for i in range(1, len(part) + 1):
             matched, length, appl = recs[i]
             out.append((matched, length, sorted(appl)))
-        os.remove(path)
     return out
 
 
 def model_check(ctx, wd):
     """the design: a reference master (one register write per step) against the ESC semantics, from
     every prior state: each call's post-condition and frame condition hold (MC_EscInit)"""
-    nent, ncalls, rich = (2, 2, "FALSE") if ctx.quick else (2, 2, "TRUE")
+    nent, ncalls, rich = (1, 2, "FALSE") if ctx.quick else (2, 2, "TRUE")
     T.write_cfg(wd, "mc_escinit.cfg", f"""SPECIFICATION MCSpec
 CONSTANTS NSm = 3
           MaxEnt = {nent}
@@ -335,6 +364,17 @@ def script_key(s):
     return json.dumps(s, sort_keys=True)
 
 
+def sm_blocks(regs):
+    """the sync-manager blocks of a register dump that are not all zero, for messages"""
+    out = {}
+    for n in range(16):
+        b = bytes(regs["sm"][n])
+        if any(b):
+            start, ln, ctl, status, act, pdi = struct.unpack("<HHBBBB", b)
+            out[n] = f"{start:#x}+{ln} ctl={ctl:#x} act={act}"
+    return out
+
+
 def describe(trace, matched):
     ev = trace["ev"]
     if matched >= len(ev):
@@ -349,35 +389,59 @@ def describe(trace, matched):
         if not e["ok"]:
             return f"{cur} failed: {e.get('exc')}"
         return (f"state after {cur} rejected: view={e['view']} other_changed={e['other']} "
-                f"al={e['al']} sm={[x for x in e['nz'] if x[0] >= 0x800]}")
+                f"al={e['al']} sm={sm_blocks(e['regs'])}")
     return f"event {e} rejected"
 
 
 def run(ctx):
     wd = ctx.workdir()
     q = ctx.quick
+    tm = ctx.extra["phase_wall_s"] = {}
+    t0 = [time.time()]
+
+    def lap(name):
+        tm[name] = round(time.time() - t0[0], 1)
+        t0[0] = time.time()
     model_check(ctx, wd)
+    lap("mc_escinit")
     # scripts: EEPROM variety x fixed call sequences, call-sequence variety x canonical EEPROMs
     if q:
-        sa, sb = enumerate_scripts(ctx, wd, 3, 1, [1], 2, 4)
+        sa, sb = enumerate_scripts(ctx, wd, 2, 1, [1], 2, 3, ["stale8"])
     else:
-        sa, sb = enumerate_scripts(ctx, wd, 4, 2, [0, 1, 2], 3, 6)
+        sa, sb = enumerate_scripts(ctx, wd, 4, 1, [0, 1, 2], 3, 6, ["stale8"])
+        sb += enumerate_scripts(ctx, wd, 4, 1, [0, 1, 2], 2, 6, ["fresh", "stale1", "stale8"], part="calls")[1]
+    lap("scripts")
     scripts = [dict(s, part="eeprom") for s in sa] + [dict(s, part="calls") for s in sb]
     ctx.extra["scripts"] = dict(eeprom=len(sa), calls=len(sb))
     cases = [(s, None) for s in scripts]
     # extra cases: random concrete values (addresses, lengths) for randomly chosen scripts
-    for i in range(40 if q else 600):
+    for i in range(20 if q else 400):
         s = ctx.rng.choice(scripts)
-        cases.append((dict(s, extra=f"{ctx.seed}/{i}"), random.Random(ctx.rng.random())))
+        tag = f"X01/extra/{ctx.seed}/{i}/{ctx.rng.randrange(10 ** 9)}"
+        cases.append((dict(s, extra=tag), random.Random(tag)))
     traces = []
     for s, rng in cases:
         sc = {k: v for k, v in s.items() if k not in ("part", "extra")}
         traces.append(drive(sc, rng))
-    results = validate(ctx, wd, traces)
-    # second pass: rejected traces under the relaxations whose predicate holds
-    again = [i for i, (m, ln, appl) in enumerate(results) if m != ln and appl]
-    relaxed = [dict(traces[i], relax=results[i][2]) for i in again]
-    results2 = dict(zip(again, validate(ctx, wd, relaxed))) if relaxed else {}
+    lap("drive")
+    results = validate(ctx, wd, traces, jobs=4 if q else 6)
+    lap("validate")
+    # second pass: each rejected trace again under every non-empty subset of the relaxations whose
+    # predicate holds for its EEPROM; the smallest accepted subset names the observation
+    variants = []
+    for i, (m, ln, appl) in enumerate(results):
+        if m != ln and appl:
+            for k in range(1, len(appl) + 1):
+                for sub in itertools.combinations(appl, k):
+                    variants.append((i, list(sub)))
+    res2 = validate(ctx, wd, [dict(traces[i], relax=sub) for i, sub in variants], jobs=4 if q else 6)
+    lap("validate_relaxed")
+    accepted, closest = {}, {}
+    for (i, sub), (m2, ln2, _) in zip(variants, res2):
+        if m2 == ln2:
+            accepted.setdefault(i, sub)         # variants are ordered by size
+        elif i not in closest or m2 > closest[i][1]:
+            closest[i] = (sub, m2)
     obs = {}
     ctx.rule = ("one evaluation = one script (EEPROM sync-manager category, prior ESC state, call "
                 "sequence) replayed on the real Terminal / EBPFTerminal and validated by TLC against "
@@ -390,24 +454,31 @@ def run(ctx):
         ctx.evaluated(script_key(s), nontrivial=s["prior"]["junk"] or ncalls >= 2)
         if m == ln:
             continue
-        case = dict(script=s, entries=[list(e) for e in concrete_entries(s["sms"], None)] if rng is None
-                    else None, applicable=appl, rejected_at=m, rejected_event=tr["ev"][m] if m < ln else None,
-                    sms=s["sms"], has41=s["has41"], prior=s["prior"],
-                    calls=[c["op"] for c in s["calls"]])
-        if i in results2 and results2[i][0] == results2[i][1]:
-            key = "+".join(appl)
+        entries = [list(e) for e in concrete_entries(s["sms"], random.Random(s["extra"]) if rng else None)]
+        if i in accepted:
+            key = "+".join(accepted[i])
             o = obs.setdefault(key, dict(n=0, example=None))
             o["n"] += 1
             if o["example"] is None:
-                o["example"] = dict(sms=s["sms"], has41=s["has41"], prior=s["prior"],
+                o["example"] = dict(sms=s["sms"], entries=entries, has41=s["has41"], prior=s["prior"],
                                     calls=[c["op"] for c in s["calls"]], why=describe(tr, m))
             continue
+        case = dict(script=s, entries=entries, applicable=appl, rejected_at=m,
+                    rejected_event=tr["ev"][m] if m < ln else None, sms=s["sms"], has41=s["has41"],
+                    prior=s["prior"], calls=[c["op"] for c in s["calls"]])
         why = describe(tr, m)
-        if i in results2:
-            m2 = results2[i][0]
-            why += f"; with relaxations {appl} still rejected at event {m2}: " + describe(relaxed[again.index(i)], m2)
+        if i in closest:
+            sub, m2 = closest[i]
+            why += f"; no relaxation among {appl} explains it (with {sub}: rejected at event {m2}: " \
+                   + describe(tr, m2) + ")"
         ctx.case_failed(case, why)
     ctx.extra["observations"] = obs
+    ctx.extra["bounds"] = dict(
+        eeprom_part="categories of <= %d entries, non-zero types distinct, <= 1 entry deviating from "
+                    "(length non-zero, enabled), 3 call sequences each" % (2 if q else 4),
+        calls_part="all call sequences of length %s over %d canonical categories" % ("2" if q else "3 and 2",
+                                                                                 3 if q else 6),
+        extra_random_cases=20 if q else 400)
     for tr in traces[:2]:
         ctx.sample(dict(ee=tr["ee"], nf=tr["nf"], init_al=tr["init"]["al"],
                         ev=[e if e["k"] != "w" else dict(e, data=e["data"][:12]) for e in tr["ev"]][:12]))
@@ -421,6 +492,7 @@ def run(ctx):
 
 def replay(ctx, case):
     s = {k: v for k, v in case["script"].items() if k not in ("part", "extra")}
-    tr = drive(s, None)
+    extra = case["script"].get("extra")
+    tr = drive(s, random.Random(extra) if extra else None)
     for e in tr["ev"]:
         print(json.dumps(e if e["k"] != "w" else dict(e, data=e["data"][:16]))[:600])
